@@ -516,7 +516,7 @@ func (e *Exec) applyHavoc(st *State, h *hctx, fn *ssa.Function, resType types.Ty
 			if l.key == "@elems" {
 				// over-approximation on the caller's side: the fields of ALL objects of the element type
 				// are forgotten (not only those inside this array)
-				e.havocStructHeaps(st, elemsType[l.addr])
+				e.havocStructHeaps(st, elemsType[l.addr], l.addr)
 				continue
 			}
 			if l.key == "G|*" {
@@ -1030,31 +1030,84 @@ func (e *Exec) addFrameLocs(fs *frameSpec, a *smt.Term, t types.Type) {
 	}
 }
 
-// havocStructHeaps forgets the field heaps of struct type t (recursively for embedded structs/arrays).
-func (e *Exec) havocStructHeaps(st *State, t types.Type) {
+// havocStructHeaps forgets the fields of the elements of backing array arr (struct type t, recursively for
+// embedded structs/arrays): each field heap is replaced by a fresh one that agrees with the old heap at every
+// address outside arr - stated lazily, as an axiom instance per address that is later read (partialAxioms).
+func (e *Exec) havocStructHeaps(st *State, t types.Type, arr *smt.Term) {
+	if e.partial == nil {
+		e.partial = map[*smt.Term]partialRec{}
+	}
 	switch u := t.Underlying().(type) {
 	case *types.Struct:
 		for i := 0; i < u.NumFields(); i++ {
 			ft := u.Field(i).Type()
 			if isAggregate(ft) {
-				e.havocStructHeaps(st, ft)
+				e.havocStructHeaps(st, ft, arr)
 				continue
 			}
 			fid := e.W.FieldID(t, i)
 			k := e.W.fieldInfo[fid].key
 			hs := e.fieldHeapSort(fid)
 			e.heapSort[k] = hs
-			st.Heaps[k] = e.fresh("L|"+k, hs)
+			old := e.heap(st, k, hs)
+			nv := e.fresh("L|"+k, hs)
+			e.partial[nv] = partialRec{old, arr}
+			st.Heaps[k] = nv
 		}
 	case *types.Array:
 		if isAggregate(u.Elem()) {
-			e.havocStructHeaps(st, u.Elem())
+			e.havocStructHeaps(st, u.Elem(), arr)
 			return
 		}
 		k := elemKey(u.Elem())
 		hs := smt.Array(AddrS, smt.Array(BV64, e.W.SortOf(u.Elem())))
 		e.heapSort[k] = hs
 		st.Heaps[k] = e.fresh("L|"+k, hs)
+	}
+}
+
+type partialRec struct {
+	old, arr *smt.Term
+}
+
+// inArray: address p (an index of a field heap) lies inside backing array arr: p = elm(arr, _) or a field
+// path below such an element.
+func inArray(p, arr *smt.Term) *smt.Term {
+	for p.Op == "ctor" && p.Name == "fld" {
+		p = p.Args[0]
+	}
+	if p.Op == "ctor" {
+		if p.Name == "elm" {
+			return smt.Eq(p.Args[0], arr)
+		}
+		return smt.False
+	}
+	// a pointer value of unknown shape: decided by the solver on the datatype
+	return smt.And(smt.Is("elm", p), smt.Eq(smt.Sel(AddrS, "elm", 0, p), arr))
+}
+
+// partialAxioms: reading heap term h at address p - for every partially forgotten heap underneath, the
+// value outside the forgotten array is the old one.
+func (e *Exec) partialAxioms(h, p *smt.Term) {
+	if len(e.partial) == 0 {
+		return
+	}
+	for depth := 0; depth < 64; depth++ {
+		switch h.Op {
+		case "store":
+			h = h.Args[0]
+			continue
+		case "ite":
+			e.partialAxioms(h.Args[1], p)
+			h = h.Args[2]
+			continue
+		}
+		r, ok := e.partial[h]
+		if !ok {
+			return
+		}
+		e.Axiom(smt.Or(inArray(p, r.arr), smt.Eq(smt.Select(h, p), smt.Select(r.old, p))))
+		h = r.old
 	}
 }
 
